@@ -222,7 +222,23 @@ def check_instance(x, cls_name, mode, replay, stats, emitted, agg=None):
                                         "padding_length = 8 and writes 8 extra zero bytes: re-encoding the decoded %s "
                                         "gives different bytes" % cls_name, dict(replay, version=IC.vname(v), hex=b.hex())))
                 b2 = IC.enc(y, v)
-            if b2 != b:
+            if b2 != b and mode == "inconsistent":
+                # the decoder read the bytes as a different value: then only decode-encode-decode stability
+                stats["inconsistent_reinterpreted"] = stats.get("inconsistent_reinterpreted", 0) + 1
+                try:
+                    y2, left2 = IC.dec(factory, b2, v)
+                    IC.repair_text_padding(y2)
+                    if left2 or IC.enc(y2, v) != b2:
+                        findings.append(Finding("c01:decode-encode-decode-unstable:%s" % wcls,
+                                                "%s under KMIP %s: an accepted byte string is not stable under "
+                                                "decode-encode-decode" % (cls_name, IC.vname(v)),
+                                                dict(replay, version=IC.vname(v), hex=b.hex())))
+                except Exception as e:
+                    findings.append(Finding("c01:decode-encode-decode-unstable:%s" % wcls,
+                                            "%s under KMIP %s: the re-encoding of an accepted byte string is rejected "
+                                            "(%s)" % (cls_name, IC.vname(v), type(e).__name__),
+                                            dict(replay, version=IC.vname(v), hex=b.hex())))
+            elif b2 != b:
                 findings.append(Finding("c01:reencode-differs:%s" % wcls,
                                         "%s under KMIP %s: re-encoding the decoded value gives different bytes"
                                         % (cls_name, IC.vname(v)), dict(replay, version=IC.vname(v), hex=b.hex())))
@@ -257,7 +273,9 @@ def check_instance(x, cls_name, mode, replay, stats, emitted, agg=None):
                 a = agg.setdefault(f, {"preserved": set(), "dropped": set(), "all6": None})
                 for v in vs:
                     (a["dropped"] if per_v[v] else a["preserved"]).add(IC.vname(v))
-                if kind == "all" and len(vs) == len(IC.VERSIONS) and a["all6"] is None:
+                if kind == "all" and len(vs) == len(IC.VERSIONS) and \
+                        (a["all6"] is None or (a["all6"]["replay"].get("derive") == "ctor-fill"
+                                               and replay.get("derive") != "ctor-fill")):
                     a["all6"] = {"paths": per_v[vs[0]][:4], "replay": replay}
             if kind == "other":
                 findings.append(Finding("c01:decoded-differs:%s.%s" % (wcls, f),
@@ -323,7 +341,7 @@ class StructRun(object):
         self.stats["test_vectors"] = len(vecs)
         for b in vecs:
             self.lib.feed_bytes(b, "test-vector", tagmap=tagmap)
-        n_req = 60 if self.tier == "quick" else 600
+        n_req = 160 if self.tier == "quick" else 1500
         try:
             self.traffic = IC.engine_traffic(self.seed * 31 + 5, n_req)
         except Exception as e:
@@ -361,8 +379,8 @@ class StructRun(object):
         exs = self.lib.examples.get(key, [])
         if not exs:
             return []
-        n_seed = 5 if self.tier == "quick" else 40
-        n_der = 8 if self.tier == "quick" else 60
+        n_seed = 8 if self.tier == "quick" else 40
+        n_der = 12 if self.tier == "quick" else 60
         n_sub = 10 if self.tier == "quick" else 1024
         # distinct seeds by encoding
         picked = []
@@ -428,7 +446,7 @@ class StructRun(object):
                         o4 = type(o)(**kw2)
                     except Exception:
                         continue
-                    out.append((o4, "incomplete", dict(base, derive="ctor-fill", fill=k)))
+                    out.append((o4, "incomplete", dict(base, derive="ctor-fill", fill=k, fill_value=describe_value(cand))))
             rs = self.rng.randrange(1 << 30)
             for j, (desc, y) in enumerate(IC.derive(o, random.Random(rs), n_der)):
                 mode = "incomplete" if (desc.startswith("none ") or desc.startswith("drop ")) else "strict"
@@ -594,6 +612,51 @@ BUILDERS = {
 }
 
 
+def describe_value(v):
+    """a JSON form of a constructor argument from which it can be re-created"""
+    if isinstance(v, primitives.Base):
+        for ver in (enums.KMIPVersion.KMIP_1_4, enums.KMIPVersion.KMIP_2_0):
+            try:
+                d = {"base": type(v).__module__ + "." + type(v).__name__, "hex": IC.enc(copy.deepcopy(v), ver).hex(),
+                     "version": IC.vname(ver), "tag": v.tag.value}
+                if IC.prim_kind(v) == "Enumeration":
+                    d["enum"] = v.enum.__name__
+                return d
+            except Exception:
+                continue
+        return None
+    if isinstance(v, bool) or isinstance(v, int) or isinstance(v, str):
+        return {"py": v}
+    if isinstance(v, bytes):
+        return {"bytes": v.hex()}
+    return None
+
+
+def undescribe_value(d):
+    if not d:
+        return None
+    if "py" in d:
+        return d["py"]
+    if "bytes" in d:
+        return bytes.fromhex(d["bytes"])
+    import importlib
+    mod, name = d["base"].rsplit(".", 1)
+    c = getattr(importlib.import_module(mod), name)
+    tag = enums.Tags(d["tag"])
+    tries = [lambda: c(), lambda: c(tag=tag)]
+    if "enum" in d:
+        tries.append(lambda: primitives.Enumeration(getattr(enums, d["enum"]), None, tag))
+    for t in tries:
+        try:
+            o = t()
+            o.read(utils.BytearrayStream(bytes.fromhex(d["hex"])), kmip_version=IC.vof(d["version"]))
+            IC.repair_text_padding(o)
+            return o
+        except Exception:
+            continue
+    return None
+
+
 def replay_struct(rep):
     """re-create the instance a replay object describes; returns (instance, strict, class name) or None"""
     lib = IC.Library()
@@ -617,7 +680,13 @@ def replay_struct(rep):
         o = IC.rebuild_via_ctor(o, rep.get("drop", []))
         strict = "incomplete"
     elif d == "ctor-fill":
-        return None
+        cand = undescribe_value(rep.get("fill_value"))
+        if cand is None:
+            return None
+        kw = IC.ctor_kwargs(o)
+        kw[rep["fill"]] = cand
+        o = type(o)(**kw)
+        strict = "incomplete"
     elif isinstance(d, list):
         rs, n, j = d
         lst = IC.derive(o, random.Random(rs), n)
